@@ -398,9 +398,34 @@ thread_local! {
 }
 static JOURNAL: std::sync::OnceLock<PathBuf> = std::sync::OnceLock::new();
 
-/// Names the sub-check the following cases belong to (used by the crash journal).
+thread_local! {
+    static GROUP_CLOCK: RefCell<(Option<std::time::Instant>, BTreeMap<String, u64>)> = const { RefCell::new((None, BTreeMap::new())) };
+}
+
+/// Names the sub-check the following cases belong to (used by the crash journal
+/// and by the per-group time accounting).
 pub fn set_group(group: &str) {
-    CURRENT_GROUP.with(|g| *g.borrow_mut() = group.to_string());
+    let previous = CURRENT_GROUP.with(|g| std::mem::replace(&mut *g.borrow_mut(), group.to_string()));
+    GROUP_CLOCK.with(|c| {
+        let mut c = c.borrow_mut();
+        if let Some(t0) = c.0.take() {
+            *c.1.entry(previous).or_insert(0) += t0.elapsed().as_millis() as u64;
+        }
+        c.0 = Some(std::time::Instant::now());
+    });
+}
+
+/// Adds the time this worker spent in each sub-check to the report, as
+/// `<group>:worker_ms` labels (summed over the shards when reports are merged).
+pub fn flush_group_times(rep: &mut Report) {
+    set_group("");
+    GROUP_CLOCK.with(|c| {
+        for (group, ms) in std::mem::take(&mut c.borrow_mut().1) {
+            if !group.is_empty() {
+                *rep.labels.entry(format!("{group}:worker_ms")).or_insert(0) += ms;
+            }
+        }
+    });
 }
 
 /// Turns on the crash journal: every case is written to `path` before it
